@@ -28,6 +28,11 @@ CLAIMS = {
  "C16": dict(
     text="Proof (Verus) that make_style_sections never slices outside the line or inside a character whatever submatch offsets an `rg --json` record carries: the cursor stays on a char boundary inside the line, invalid/overlapping ranges are skipped.",
     note=_COMMON_NOTE + " Only this kernel is under contract: the grep regexes, serde parsing and expand_tabs' offset shift (closures, partition_point) are outside the verifier's reach; 'sections concatenate to the line' is not yet proved (vstd's str slicing theory)."),
+ "C20": dict(
+    category="other",
+    text="Restricted, sequential claim: the two critical sections on the shared CALLER cell (the background guess inside the spawned closure, and set_calling_process) and the waiter's predicate are extracted by anchor from the real source with three token substitutions (atomic load/store -> field, *caller -> field, notify_all -> ghost flag) and verified by Verus against the lock invariant 'source == KNOWN => cell holds the launched command and is not Pending': the guess never overwrites a launched command, always leaves a non-Pending answer and notifies; the known section records KNOWN under the lock and notifies; the waiter sleeps exactly while Pending. Level `other`, not `proof`, because the extraction is substitution-based (closer to a model) and interleavings are covered only by the assumption that the mutex serialises these sections.",
+    note="Assumed: Mutex gives mutual exclusion; Condvar::wait_while re-checks the predicate under the lock; the spawned thread is scheduled and determine_calling_process() returns (never Pending) - liveness beyond that is not decided. CallingProcess is abstracted to Pending/None/Some(id).",
+    technique="contract-based deductive verification (Verus) of the critical sections extracted by anchor with stated substitutions; sequential lock invariant"),
  "C17": dict(
     text="Proof (Verus) of the colour rules of the real get_color/get_next_color: a repeated attribution gets the colour recorded for it, a line attributed differently from its predecessor never gets the predecessor's colour (palette of >= 2 distinct entries), a reappearing attribution keeps its colour unless that collides with the line above; no division by zero, no unreachable arm.",
     note=_COMMON_NOTE + " Assumed: String obeys vstd's hash-table key model, a borrowed key maps to at most one value, the palette is non-empty (Config::from exits otherwise). The blame regex and chrono are not modelled."),
@@ -45,7 +50,7 @@ CLAIMS = {
     note=_COMMON_NOTE + " Exact header counts over whole histories and box drawing are not decided."),
 }
 _NOT_YET = "check not built yet in this session (planned, see DESIGN.md section 4)"
-NA = {p: _NOT_YET for p in ["C02","C06","C07","C12","C13","C20"]}
+NA = {p: _NOT_YET for p in ["C02","C06","C07","C12","C13"]}
 NA["C18"] = "quantifies over OS-level fault sequences, child exit statuses and pager selection (run_app / OutputType::try_pager: Command::spawn, wait, process::exit); neither installed deductive verifier has a model of these and no function with a meaningful contract can be separated without refactoring unguarded source (DESIGN.md section 5)"
 for _p in CLAIMS:
     CLAIMS[_p].setdefault("technique", _V)
